@@ -2,6 +2,8 @@ import Lz4V.Util
 import Lz4V.Spec.XXH32
 import Lz4V.Spec.Block
 import Lz4V.Spec.Frame
+import Lz4V.Model.PipeW
+import Lz4V.Model.PipeR
 /-!
 # lz4v-spec — the independent specifications as an executable oracle
 
@@ -58,12 +60,29 @@ def legacyView (bytes : Array UInt8) (withSizes : Bool) : String :=
     let base := s!"ok legacy len={c.size} fnv={fnv c c.size}"
     if withSizes then s!"{base} sizesok={b2n (Spec.Frame.legacySizesOk sizes)}" else base
 
+/-- event tokens: letter + channel number, e.g. `s0 c0 q0 w0 r0 S1 D1` -/
+def parseW (t : String) : Option Model.PipeW.Ev :=
+  let n := (t.drop 1).toString.toNat!
+  match t.front with
+  | 's' => some (.submit n) | 'c' => some (.compressed n) | 'q' => some (.dequeued n) | 'w' => some (.written n)
+  | 'r' => some (.released n) | 'S' => some (.sentinel n) | 'D' => some (.done n) | _ => none
+
+def parseR (t : String) : Option Model.PipeR.Ev :=
+  let n := (t.drop 1).toString.toNat!
+  match t.front with
+  | 'a' => some (.read n) | 'd' => some (.decoded n) | 'v' => some (.delivered n)
+  | 'S' => some (.sentinel n) | 'D' => some (.done n) | _ => none
+
 partial def loopIO (hin hout : IO.FS.Stream) : IO Unit := do
   let line ← hin.getLine
   if line.isEmpty then return ()
   let f := line.trimAscii.toString.splitOn " "
   match f with
   | ["SF", strict, blob] => hout.putStrLn (frameView (← loadBlob blob) (strict == "1"))
+  | "PW" :: complete :: toks =>
+    hout.putStrLn (if Model.PipeW.validTrace (toks.filterMap parseW) (complete == "1") then "valid" else "INVALID")
+  | "PR" :: complete :: toks =>
+    hout.putStrLn (if Model.PipeR.validTrace (toks.filterMap parseR) (complete == "1") then "valid" else "INVALID")
   | ["SFC", strict, blob] => hout.putStrLn (frameViewC (← loadBlob blob) (strict == "1"))
   | ["SL", blob] => hout.putStrLn (legacyView (← loadBlob blob) false)
   | ["SLS", blob] => hout.putStrLn (legacyView (← loadBlob blob) true)
